@@ -6,15 +6,17 @@ From KD Require Import C07.RngGraph C07.gen.RngTable C07.Check C07.ModelC08 C07.
 (* one simulated worker: the live stack with the slots as the worker inherited them (Ctor k = the k-th generator found
    in the copy), how many generators get_rng_from_global() created during dataset.worker_init_fn, the slots observed
    afterwards (Wrk k = the k-th generator created; preorder over the stack), and the provenances of all generators that
-   produced at least one draw while samples / batches were produced afterwards *)
+   produced at least one draw while samples / batches were produced afterwards (process-global sources seen by the
+   tripwire and unseeded default_rng() calls included) *)
 Definition case_t : Type := (dstack * nat * list (option prov) * list prov)%type.
 
 (* 0 = real objects, tables and spec agree; 1 = the tables do not describe the real objects;
-   2 = after worker_init_fn a sample drew from a generator that is not worker-derived *)
+   2 = after worker_init_fn a sample / batch drew from a generator that is not worker-derived (an inherited copy, a
+       per-item generator, OS entropy) *)
 Definition check_with (tbl ctbl : table) (wt : wtable) (ds : dsdesc) (c : case_t) : nat :=
   let '(s0, n, after, obs) := c in
   let '(k', s1) := worker_init tbl ctbl wt ds 0 s0 in
-  if existsb (fun p => negb (is_wrk p)) obs then 2
+  if existsb (fun p => negb (worker_derived 0 k' p)) obs then 2
   else if negb (swf tbl ctbl wt s0) then 1
   else if negb (fwd_known ds s0) then 1
   else if negb (Nat.eqb k' n) then 1
